@@ -2,7 +2,7 @@
 from cfg import Inconclusive, op_place, show, walk
 from common import (atomic_op, calls_to, callee, closure_creations, closure_consumer, field_chain, fn_of,
                     find_fn, get_fn, head_sources, peel, site, guards_of, field_assigns, is_diverging)
-from common import bool_param, is_arg
+from common import bool_param, is_arg, GuardStates
 from props.c09 import classify
 
 PROP = "C13"
@@ -100,37 +100,16 @@ def rule_run_exit(ctx):
                       "a completed (non-cancelled) run can return without looking at should_notify: a UI that was told `running` and waits for the notification is never woken")
 
 
-def lock_held_edges(fn):
-    """Edges after which a guard of self.worker is held in tick_inner."""
-    edges = []
-    for bi, t in fn.calls(lambda t: callee(t).endswith("::lock_arc")):
-        if t["target"] is not None:
-            edges.append((bi, t["target"]))
-    for bi, t in fn.calls(lambda t: callee(t).endswith("::try_lock_arc_for") or callee(t).endswith("::try_lock_arc")):
-        tb = t["target"]
-        if tb is None:
-            continue
-        sw = fn.blocks[tb]["term"]
-        if sw["k"] == "switch":
-            e = fn.expr_of_operand(sw["discr"])
-            if e[0] == "discr":
-                for v, bb in sw["arms"]:
-                    if v == 1:
-                        edges.append((tb, bb))
-    return edges
+def guard_states(fn):
+    gs = getattr(fn, "_guard_states", None)
+    if gs is None:
+        gs = GuardStates(fn)
+        fn._guard_states = gs
+    return gs
 
 
 def failed_lock_edges(fn):
-    out = []
-    for bi, t in fn.calls(lambda t: callee(t).endswith("::try_lock_arc_for") or callee(t).endswith("::try_lock_arc")):
-        tb = t["target"]
-        sw = fn.blocks[tb]["term"]
-        if sw["k"] == "switch":
-            some = [bb for v, bb in sw["arms"] if v == 1]
-            for s in fn.succ[tb]:
-                if s not in some:
-                    out.append((tb, s))
-    return out
+    return list(guard_states(fn).failed_edges)
 
 
 def rule_arm_under_lock(ctx):
@@ -151,11 +130,10 @@ def rule_arm_under_lock(ctx):
             ctx.violation("%s|should_notify.store|outside-tick|%d" % (fn.path, n_unguarded), site(fn, bi),
                           "notification flag armed outside tick_inner, i.e. without holding the worker mutex")
             continue
-        held = lock_held_edges(fn)
-        spawns = [sbi for sbi, st in fn.calls(lambda t: callee(t) == "rayon::ThreadPool::spawn")]
-        under = fn.must_pass(bi, via_edges=held)
-        after_spawn = any(bi in fn.reach_from(fn.blocks[s]["term"]["target"]) for s in spawns if fn.blocks[s]["term"]["target"] is not None)
-        if under and not after_spawn:
+        gs = guard_states(fn)
+        if not gs.acquired_edges:
+            raise Inconclusive("no lock_arc / try_lock_arc_for of the worker mutex found in %s" % fn.path)
+        if gs.held(bi):
             ctx.ok(site(fn, bi), "flag armed while the worker mutex is held (before the guard moves into the run)")
             continue
         failed = failed_lock_edges(fn)
@@ -213,7 +191,7 @@ def rule_disarm_first(ctx):
     for s in spawns:
         # paths entry -> spawn that avoid every arming store must go through a canceled==true edge that is
         # *after* the lock (the switch right before the store)
-        late = [e for e in cedges if ti.must_pass(e[0], via_edges=lock_held_edges(ti))]
+        late = [e for e in cedges if guard_states(ti).held(e[0])]
         if ti.must_pass(s, via_nodes=arm, via_edges=late) and arm:
             ctx.ok(site(ti, s), "run spawned only after arming the flag, except in the cancelling first phase")
         else:
